@@ -180,6 +180,8 @@ type relayRig struct {
 	uhosts      []*proxy.UpstreamHost
 	dialSeq     map[string]int
 	selSeq      map[string]int
+	selT0       map[string]time.Duration // first selection of a backend for the request
+	servedAt    map[string]time.Duration // the proxy's handler returned
 	seqMu       sync.Mutex
 	regexRules  bool // three-argument rules: header_downstream X-Dup (regexp -> replacement), header_upstream X-A
 	transparent bool
@@ -207,6 +209,9 @@ func (r *relayRig) nextSel(id string) int {
 	r.seqMu.Lock()
 	defer r.seqMu.Unlock()
 	r.selSeq[id]++
+	if r.selSeq[id] == 1 {
+		r.selT0[id] = r.c.Now()
+	}
 	return r.selSeq[id]
 }
 
@@ -285,7 +290,11 @@ func setupRelayProxy(c *casket.Controller) error {
 		return httpserver.HandlerFunc(func(w http.ResponseWriter, req *http.Request) (int, error) {
 			m := &rwMonitor{ResponseWriterWrapper: &httpserver.ResponseWriterWrapper{ResponseWriter: w}, rig: rig, owner: goid(), id: req.Header.Get("X-Req")}
 			req = req.WithContext(context.WithValue(req.Context(), relayReqKey{}, req.Header.Get("X-Req")))
-			return px.ServeHTTP(m, req)
+			st, err := px.ServeHTTP(m, req)
+			rig.seqMu.Lock()
+			rig.servedAt[req.Header.Get("X-Req")] = rig.c.Now()
+			rig.seqMu.Unlock()
+			return st, err
 		})
 	})
 	return nil
@@ -499,7 +508,7 @@ func runRelayMode(mode string) sim.RigFunc {
 }
 
 func runRelayIn(c *sim.Ctl, mode string) {
-	r := &relayRig{c: c, st: c.T.Stream("struct"), finish: make(chan struct{}), mode: mode, hosts: 1, dialSeq: map[string]int{}, selSeq: map[string]int{}}
+	r := &relayRig{c: c, st: c.T.Stream("struct"), finish: make(chan struct{}), mode: mode, hosts: 1, dialSeq: map[string]int{}, selSeq: map[string]int{}, selT0: map[string]time.Duration{}, servedAt: map[string]time.Duration{}}
 	relayCur = r
 	defer func() { relayCur = nil }()
 	r.w = NewWorld(c)
@@ -1064,6 +1073,12 @@ func (r *relayRig) judge() {
 				}
 			}
 		} else if !faulty && q.cl.done {
+			if r.hosts == 2 && r.servedAt[fmt.Sprint(q.id)]-r.selT0[fmt.Sprint(q.id)] >= 2*time.Second-7*time.Millisecond {
+				// the schedule held this request's attempts back for the whole try_duration
+				// (a parked dial is only released when the controller says so): giving up is in order
+				c.Probe("retry-duration-spent-by-the-schedule")
+				continue
+			}
 			c.Violate("C04/not-forwarded", "", "request %d (%s %s) was answered without reaching the backend", q.id, q.method, q.path)
 		}
 		// ---- what the client received ----
